@@ -46,11 +46,11 @@ def molecule(name, d, uhf=False, frozen=None, basis="sto-3g"):
 
 # catalogue of configurations: (ansatz, molecule names, mappings, orderings, option variants)
 CATALOG = [
-    ("UCCSD", ["H2", "H2", "H2_triplet", "H3_doublet", "H4", "H4_cation", "H4_f0", "H4_f03"], ["jw", "bk", "scbk", "jkmn"], [False, True], [{}]),
+    ("UCCSD", ["H2", "H2", "H2_triplet", "H3_doublet", "H4", "H4_cation", "H4_f0", "H4_f03"], ["jw", "bk", "scbk", "jkmn"], [False, True], [{}, {}, {}, {"reference_state": "zero"}]),
     ("UCCSD_UHF", ["H2", "H4_cation"], ["jw"], [False, True], [{}]),
     ("UCC1", [None], [None], [None], [{}]),
     ("UCC3", [None], [None], [None], [{}]),
-    ("UpCCGSD", ["H2", "H2", "H4", "H3_doublet", "H4_f0"], ["jw", "bk", "scbk", "jkmn"], [False, True], [{"k": 1}, {"k": 2}, {"k": 3}, {"k": 4}]),
+    ("UpCCGSD", ["H2", "H2", "H4", "H3_doublet", "H4_f0"], ["jw", "bk", "scbk", "jkmn"], [False, True], [{"k": 1}, {"k": 2}, {"k": 3}, {"k": 4}, {"k": 2, "reference_state": "zero"}, {"k": 5}]),
     ("UCCGD", ["H2", "H2", "H4"], ["jw", "bk", "jkmn"], [False, True], [{}]),
     ("HEA", ["H2", "H4", "H4_f03"], ["jw", "bk", "scbk"], [False, True], [{"n_layers": 1, "rot_type": "euler"}, {"n_layers": 2, "rot_type": "euler"},
                                                                    {"n_layers": 3, "rot_type": "real"}, {"n_layers": 2, "rot_type": "real"}]),
@@ -60,7 +60,7 @@ CATALOG = [
     ("VSQS", ["H2", "H2", "H4"], ["jw", "bk", "scbk"], [False, True], [{"intervals": 2, "trotter_order": 1}, {"intervals": 3, "trotter_order": 2},
                                                                         {"intervals": 2, "trotter_order": 1, "h_nav": True}, {"intervals": 3, "trotter_order": 1, "h_nav": True},
                                                                         {"intervals": 4, "trotter_order": 2, "h_nav": True}, {"intervals": 4, "trotter_order": 1}]),
-    ("pUCCD", ["H2", "H4", "H4_ring"], [None], [None], [{}]),
+    ("pUCCD", ["H2", "H4", "H4_ring"], [None], [None], [{}, {}, {"reference_state": "zero"}]),
     ("ADAPT", ["H2", "H4"], ["jw", "bk"], [False, True], [{}]),
     ("VarCirc", [None], [None], [None], [{}]),
 ]
@@ -157,13 +157,13 @@ class AnsatzWorld(World):
         name, mp, utd, o = cfg["ansatz"], cfg["mapping"], cfg["utd"], cfg["opts"]
         mol = self._mol()
         if name in ("UCCSD", "UCCSD_UHF"):
-            return ag.UCCSD(mol, mapping=mp, up_then_down=utd)
+            return ag.UCCSD(mol, mapping=mp, up_then_down=utd, reference_state=o.get("reference_state", "HF"))
         if name == "UCC1":
             return ag.RUCC(1)
         if name == "UCC3":
             return ag.RUCC(3)
         if name == "UpCCGSD":
-            return ag.UpCCGSD(mol, mapping=mp, up_then_down=utd, k=o["k"])
+            return ag.UpCCGSD(mol, mapping=mp, up_then_down=utd, k=o["k"], reference_state=o.get("reference_state", "HF"))
         if name == "UCCGD":
             return ag.UCCGD(mol, mapping=mp, up_then_down=utd)
         if name == "HEA":
@@ -183,7 +183,7 @@ class AnsatzWorld(World):
                 kw["h_nav"] = hn
             return ag.VSQS(mol, mapping=mp, up_then_down=utd, **kw)
         if name == "pUCCD":
-            return ag.pUCCD(mol)
+            return ag.pUCCD(mol, reference_state=o.get("reference_state", "HF"))
         if name == "ADAPT":
             pool = self._adapt_pool()
             ops = [pool[i % len(pool)] for i in self.adapt_ops]
